@@ -40,7 +40,11 @@ func NewResult() *Result {
 }
 
 func (r *Result) Add(rule, key, pos, ctx string, out Outcome, format string, a ...any) {
-	r.Obls = append(r.Obls, Obligation{Rule: rule, Key: key, Pos: pos, Ctx: ctx, Outcome: out, Detail: fmt.Sprintf(format, a...)})
+	// "A+B" files the same obligation under both rules (a site that is a premise of
+	// two properties through different rule names)
+	for _, ru := range strings.Split(rule, "+") {
+		r.Obls = append(r.Obls, Obligation{Rule: ru, Key: key, Pos: pos, Ctx: ctx, Outcome: out, Detail: fmt.Sprintf(format, a...)})
+	}
 }
 
 func (r *Result) OK(rule, key, pos, ctx, format string, a ...any) {
